@@ -214,7 +214,7 @@ pub fn enc_bytes<F>(f: F) -> String
 where
     F: for<'d, 's> FnOnce(Packer<'d, 's>) -> Result<&'d [u8], CapacityError>,
 {
-    let mut buf = vec![0u8; 1 << 16];
+    let mut buf = vec![0u8; ENC_CAP.with(|c| c.get())];
     match catch(|| with_packer(&mut buf[..], |p| f(p).map(|b| b.to_vec()))) {
         Err(_) => "panic".to_string(),
         Ok(Err(_)) => "capacity".to_string(),
@@ -240,6 +240,13 @@ pub fn enc_ints<F: FnOnce() -> Vec<i32>>(f: F, has_bool: bool) -> String {
             }
         }
     }
+}
+
+const BIG: usize = 1 << 16;
+
+thread_local! {
+    /// capacity of the buffer `enc_bytes` encodes into
+    static ENC_CAP: std::cell::Cell<usize> = std::cell::Cell::new(BIG);
 }
 
 thread_local! {
@@ -648,6 +655,8 @@ impl R {
                     Err(_) => "bad-op".to_string(),
                 }
             }
+            ["bmsg", p, kind, name, val, cap] => self.run_cap(false, p, kind, name, val, cap, o),
+            ["bcl", p, name, val, cap] => self.run_cap(true, p, "-", name, val, cap, o),
             ["bmsg", p, kind, name, val] => {
                 let pr = match self.proto(p) {
                     Some(x) => x,
@@ -714,6 +723,44 @@ impl R {
             }
             _ => "bad-op".to_string(),
         }
+    }
+
+    /// `encode` into a buffer of exactly `cap` bytes
+    fn run_cap(&self, is_cl: bool, p: &str, kind: &str, name: &str, val: &str, cap: &str, o: &mut Oracle) -> String {
+        let pr = match self.proto(p) {
+            Some(x) => x,
+            None => return "bad-op".to_string(),
+        };
+        let (v, cap) = match (parse_value(val), cap.parse::<usize>()) {
+            (Some(v), Ok(c)) if c <= BIG => (v, c),
+            _ => return "bad-op".to_string(),
+        };
+        let (tab, f) = if is_cl {
+            (pr.connless, pr.build_connless)
+        } else if kind == "sys" {
+            (pr.system, pr.build_system)
+        } else {
+            (pr.game, pr.build_game)
+        };
+        if !tab.iter().any(|d| d.name == name) {
+            return "bad-op".to_string();
+        }
+        ENC_CAP.with(|c| c.set(cap));
+        let r = f(name, &v).unwrap_or_else(|| "bad-value".to_string());
+        ENC_CAP.with(|c| c.set(BIG));
+        // oracle: against the encoding into a large buffer
+        let full = f(name, &v).unwrap_or_else(|| "bad-value".to_string());
+        o.count("encoded_with_capacity");
+        if let Some(fb) = parse_hex(&full) {
+            // an encodable value: written completely iff it fits, never a panic
+            let want = if fb.len() <= cap { full.clone() } else { "capacity".to_string() };
+            if r != want {
+                o.fail("C14/encode-capacity", format!("{} value={} cap={} result={} full={}", name, val, cap, r, full));
+            }
+        } else if full == "panic" && r != "panic" && r != "capacity" {
+            o.fail("C14/encode-capacity", format!("{} value={} cap={} result={} full=panic", name, val, cap, r));
+        }
+        r
     }
 
     /// an encoded value decodes to the value it was built from, without warnings
@@ -1102,8 +1149,8 @@ impl Domain for Dm {
     fn gen(&self, tier: &str, seed: u64, w: &mut dyn Write) {
         let mut rng = Rng::new(seed ^ 0x67616d656e6574);
         let thorough = tier == "thorough";
-        let randoms = if thorough { 40 } else { 4 };
-        let nrand = if thorough { 200 } else { 12 };
+        let randoms = if thorough { 40 } else { 2 };
+        let nrand = if thorough { 200 } else { 5 };
         for pr in protos() {
             let p = pr.name;
             // ---- system, game, connless messages
@@ -1170,6 +1217,41 @@ impl Domain for Dm {
                             writeln!(w, "hbody {} {} {} 1", p, op, to_hex(&pre)).unwrap();
                         }
                     }
+                    // every buffer capacity from 0 to one more than needed, for the baseline value and
+                    // for a value that violates a constraint (assert vs. CapacityError order)
+                    let capname = bname.clone();
+                    let mut capvals: Vec<(&Cand, usize)> = vec![(&cs[0], idb.len() + cs[0].wire.len())];
+                    if let Some(c) = cs.iter().find(|c| c.viol.is_some() && c.val.is_some()) {
+                        capvals.push((c, idb.len() + c.wire.len()));
+                    }
+                    if thorough {
+                        let c = rng.pick(&cs);
+                        if c.val.is_some() {
+                            capvals.push((c, idb.len() + c.wire.len()));
+                        }
+                    }
+                    for (c, n) in capvals {
+                        if let Some(v) = &c.val {
+                            let caps: Vec<usize> = if n <= 40 || thorough { (0..=n + 1).collect() } else { vec![0, 1, idb.len(), n / 2, n - 1, n, n + 1] };
+                            for cap in caps {
+                                writeln!(w, "{} {} {} {} {}", bop, p, capname, v, cap).unwrap();
+                            }
+                        }
+                    }
+                    // a string with a NUL inside: `write_string` panics when its turn comes, after the
+                    // writes before it (which may already have failed for lack of room)
+                    if let Some(i) = d.members.iter().position(|t| matches!(t, T::Str(_))) {
+                        let vals: Vec<Option<String>> = d.members.iter().map(|t| cands(t, &mut rng, false)[0].val.clone()).collect();
+                        if vals.iter().all(|v| v.is_some()) {
+                            let mut vs: Vec<String> = vals.into_iter().map(|v| v.unwrap()).collect();
+                            vs[i] = "x610062".to_string();
+                            let v = format!("[{}]", vs.join(","));
+                            writeln!(w, "{} {} {} {}", bop, p, bname, v).unwrap();
+                            for cap in 0..=(idb.len() + 12) {
+                                writeln!(w, "{} {} {} {} {}", bop, p, capname, v, cap).unwrap();
+                            }
+                        }
+                    }
                     // values of the wrong shape
                     writeln!(w, "{} {} {} []", bop, p, bname).unwrap();
                     writeln!(w, "{} {} {} [i0]", bop, p, bname).unwrap();
@@ -1198,7 +1280,7 @@ impl Domain for Dm {
             for id in [i32::MAX, i32::MIN, 1 << 30, -(1 << 30), 0x3fff_ffff] {
                 writeln!(w, "msg {} {} -", p, to_hex(&write_int(id))).unwrap();
             }
-            for _ in 0..(if thorough { 20000 } else { 1500 }) {
+            for _ in 0..(if thorough { 20000 } else { 500 }) {
                 let n = rng.below(20) as usize;
                 let b = rng.bytes(n);
                 writeln!(w, "msg {} {} -", p, to_hex(&b)).unwrap();
